@@ -803,6 +803,9 @@ func (c *Connection) writeFrames(_ uint32) {
 			c.opts.FramePool.Release(f)
 			if err != nil {
 				c.connectionError("write frames", err)
+				// This goroutine is the only one that closes the network
+				// connection, so it must do so before exiting on an error.
+				c.closeNetwork()
 				return
 			}
 		case <-c.stopCh:
